@@ -1804,6 +1804,8 @@ class PredEval:
             v = self._place(rv["place"], env)
             if isinstance(v, tuple) and v and v[0] in ("some", "none"):
                 return 1 if v[0] == "some" else 0
+            if isinstance(v, tuple) and v and v[0] == "variant":
+                return v[1]
             return None
         if k == "aggregate":
             ops = [self._op(b, o, env) for o in rv["ops"]]
@@ -1817,6 +1819,8 @@ class PredEval:
                 return ("some", ops[0]) if rv["variant"] == "Some" else ("none",)
             if rv["agg"] == "closure":
                 return ("closure", rv["closure"], tuple(ops))
+            if rv["agg"] == "adt" and not rv["ops"] and "vidx" in rv and not str(rv.get("adt", "")).startswith(("std::", "core::")):
+                return ("variant", rv["vidx"])          # a field-less variant of a crate enum (a class named by an enum): its index
             return None
         return None
 
